@@ -214,6 +214,32 @@ class ASet(AList):
         return ("call", "set", tuple(sorted({vkey(i) for i in self.items}, key=_k)), ())
 
 
+def _set_items_distinct(v):
+    """Are the abstract items of a set known to be pairwise different objects (keys of one mapping, distinct literals)?"""
+    seen = set()
+    for it in v.items:
+        if isinstance(it, (str, int)) and not isinstance(it, bool):
+            k = ("lit", it)
+        elif isinstance(it, Poly) and it.is_const():
+            k = ("lit", it.const_value())
+        elif isinstance(it, Poly) and it.as_atom() is not None and it.as_atom()[0] in ("elemk", "idx"):
+            k = it.as_atom()
+        elif isinstance(it, Poly) and it.as_atom() is not None and it.as_atom()[0] == "cond" and _maybe_absent(it):
+            # a filtered key: `k` when the test holds, nothing otherwise
+            alts = [kk for _, kk in it.as_atom()[1]]
+            keys = [key_atom(kk) for kk in alts]
+            present = [a for a in keys if a != ("absent",)]
+            if len(present) != 1 or present[0] is None or present[0][0] not in ("elemk", "idx"):
+                return False
+            k = present[0]
+        else:
+            return False  # computed values (and the pseudo-elements of a list, which may repeat) can coincide
+        if k in seen:
+            return False
+        seen.add(k)
+    return True
+
+
 class ADict:
     def __init__(self, items=None, doms=()):
         self.items = dict(items or {})  # key-key -> (keyval, val)
@@ -472,6 +498,48 @@ def g_or(gs):
     if len(out) == 1:
         return out[0]
     return ("or", tuple(out))
+
+
+def g_covers(gs, limit=12):
+    """Do the guards `gs` cover every case (their disjunction is a propositional tautology over their atomic tests)?"""
+    atoms = []
+
+    def collect(g):
+        if g in (TRUE, FALSE):
+            return
+        if g[0] in ("and", "or"):
+            for x in g[1]:
+                collect(x)
+        elif g[0] == "not":
+            collect(g[1])
+        elif g not in atoms:
+            atoms.append(g)
+
+    for g in gs:
+        collect(g)
+    if len(atoms) > limit:
+        return False
+
+    def ev(g, env):
+        if g == TRUE:
+            return True
+        if g == FALSE:
+            return False
+        if g[0] == "and":
+            return all(ev(x, env) for x in g[1])
+        if g[0] == "or":
+            return any(ev(x, env) for x in g[1])
+        if g[0] == "not":
+            return not ev(g[1], env)
+        return env[g]
+
+    import itertools
+
+    for bits in itertools.product((False, True), repeat=len(atoms)):
+        env = dict(zip(atoms, bits))
+        if not any(ev(g, env) for g in gs):
+            return False
+    return True
 
 
 def _cond_alternatives(v):
@@ -1836,6 +1904,14 @@ class Frame:
         short = name.split(".")[-1]
         if dotted == "str" and len(args) == 1 and not kwargs and "str" not in st.env:
             return make_str(_piece_of(args[0]))
+        if name == "collections.defaultdict" and len(args) == 2 and not kwargs and isinstance(args[1], ADict) and args[1].items:
+            # defaultdict(f, {k: v ...}) is d = defaultdict(f) followed by the stores d[k] = v
+            base = self.call_named(dotted, shown, args[:1], {}, st, node)
+            if isinstance(base, Poly):
+                for kk, vv in args[1].items.values():
+                    st.env[("@sub", vkey(base), vkey(kk))] = vv
+                    self.I.events.append(Event("store_sub", [base, kk, vv], {}, st.guards, node))
+                return base
         # numpy in-place idioms are canonicalised to one effect: store_content(destination, value)
         if name == "np.copyto" and len(args) >= 2:
             self.I.events.append(Event("store_content", [args[0], args[1]], {}, st.guards, node))
@@ -1890,6 +1966,10 @@ class Frame:
                     for kk, vv in zip(ks, vs):
                         d.items[vkey(kk)] = (kk, vv)
                     return d
+        if dotted in ("len", "sum") and len(args) == 1 and isinstance(args[0], ASet) and not _set_items_distinct(args[0]):
+            # a set built from computed values (`{len(x) for x in xs}`): equal values collapse, so neither the number of
+            # elements nor their sum is that of the list the values came from
+            return Poly.atom(("call", dotted, (vkey(args[0]),), ()))
         if dotted == "len" and len(args) == 1:
             v = args[0]
             if isinstance(v, (AList, ATuple)) and not getattr(v, "doms", None):
@@ -2359,19 +2439,26 @@ class Frame:
             rk = strip(recv.key())
             if rk != recv.key():
                 recv = poly_from_key(rk) if _is_polykey(rk) else Poly.atom(rk)
-        if name == "update" and isinstance(recv, Poly) and ((len(args) == 1 and not kwargs and isinstance(args[0], ADict) and args[0].items and not args[0].doms) or (not args and kwargs and "**" not in kwargs)):
+        if name == "update" and isinstance(recv, Poly) and ((len(args) == 1 and not kwargs and isinstance(args[0], ADict) and args[0].items) or (not args and kwargs and "**" not in kwargs)):
             # mapping.update({k: v, ...}) / mapping.update(k=v, ...) is the sequence of stores mapping[k] = v
             pairs = [(kk, vv) for kk, vv in args[0].items.values()] if args else [(k, v) for k, v in kwargs.items()]
             for kk, vv in pairs:
                 st.env[("@sub", vkey(recv), vkey(kk))] = vv
                 self.I.events.append(Event("store_sub", [recv, kk, vv], {}, st.guards, node))
             return None
+        if name == "get" and len(args) == 2 and not kwargs and args[1] is None:
+            args = args[:1]  # d.get(k, None) is d.get(k)
         if name == "get" and len(args) == 1 and not kwargs and isinstance(recv, Poly) and (recv.as_atom() or ("",))[0] in ("v", "attr", "sub"):
             # d.get(k): the entry d[k] when there is one (and None, which `is None` tests, when there is not)
             t = Poly.atom(("sub", vkey(recv), vkey(args[0])))
             _GET_TERMS.add(t.key())
             slot = ("@sub", vkey(recv), vkey(args[0]))
             return st.env.get(slot, t)
+        if name == "get" and len(args) == 2 and not kwargs and isinstance(recv, Poly) and (recv.as_atom() or ("",))[0] in ("v", "attr", "sub"):
+            # d.get(k, default): d[k] if k in d else default
+            t = Poly.atom(("sub", vkey(recv), vkey(args[0])))
+            slot = ("@sub", vkey(recv), vkey(args[0]))
+            return make_cond([(g_cmp("in", args[0], recv), st.env.get(slot, t)), (TRUE, args[1])])
         if name == "pop" and len(args) == 1 and not kwargs and isinstance(recv, Poly):
             ra = recv.as_atom()
             if ra is not None and ra[0] == "attr":
